@@ -916,14 +916,17 @@ pub(super) fn escape_string_json(s: &str, result: &mut String) {
 
 fn escape_string_yaml(s: &str, result: &mut String) {
     // U+FFFE and U+FFFF are not printable characters in YAML: a document
-    // that contains them unescaped is rejected by YAML parsers.
-    if s.contains(['\u{FFFE}', '\u{FFFF}']) {
+    // that contains them unescaped is rejected by YAML parsers. U+2028 and
+    // U+2029 are line breaks for YAML 1.1 parsers, which fold them away.
+    if s.contains(['\u{FFFE}', '\u{FFFF}', '\u{2028}', '\u{2029}']) {
         let mut escaped = String::new();
         escape_string_json(s, &mut escaped);
         result.push_str(
             &escaped
                 .replace('\u{FFFE}', "\\ufffe")
-                .replace('\u{FFFF}', "\\uffff"),
+                .replace('\u{FFFF}', "\\uffff")
+                .replace('\u{2028}', "\\u2028")
+                .replace('\u{2029}', "\\u2029"),
         );
     } else {
         escape_string_json(s, result);
